@@ -102,12 +102,31 @@ type c13Engine struct {
 	sess *bridge.Session
 }
 
+// c13Order: the second engine kind registers the same functions in reverse
+// order: polymorphic overload sets (ov) then resolve differently, and nothing
+// of one engine may leak into the other through shared environment objects.
+func c13Order(user []*ref.Fun, closureCompiler bool) []*ref.Fun {
+	if !closureCompiler {
+		return user
+	}
+	rev := make([]*ref.Fun, len(user))
+	for i, f := range user {
+		rev[len(user)-1-i] = f
+	}
+	return rev
+}
+
 func newC13Engine(name string, closureCompiler bool, user []*ref.Fun) *c13Engine {
+	user = c13Order(user, closureCompiler)
 	sess := bridge.NewSession(user)
 	ex := yae.NewExpr()
 	if closureCompiler {
 		ex.UseClosureCompiler()
 	}
+	// the engine registers its built-ins lazily at its first compilation:
+	// compile once first so that the registration order is "built-ins, then
+	// the harness functions" as in the reference table
+	ex.Compile("1", nil)
 	ex.RegisterFun(sess.UserVals...)
 	return &c13Engine{name, ex, sess}
 }
@@ -197,6 +216,9 @@ func runC13(c *run.Ctx) {
 				ref.Call("string", ref.List(ref.Ident("xs"), ref.Ident("xs"))),
 				ref.CallF(ref.FInfix, "+", ref.Ident("s"), ref.Call("string", ref.Call("pick3", ref.Ident("n"), ref.Ident("k"), ref.Ident("n"), ref.Call("len", ref.Ident("ss"))))),
 				ref.Subscript(ref.Ident("xs"), ref.Ident("n")),
+				ref.CallF(ref.FInfix, "+", ref.Call("ov", ref.Ident("xs")), ref.Call("ov", ref.Ident("n"))),
+				ref.Call("ov", ref.Ident("ss")),
+				ref.Call("len", ref.Ident("xs")),
 				ref.Call("print", ref.Call("string", ref.Map([]*ref.E{ref.Ident("s"), ref.Str("k2"), ref.Str("k3")}, []*ref.E{ref.Ident("m"), ref.Ident("m"), ref.Ident("m")}))),
 			}
 			for _, e := range fixed {
@@ -345,8 +367,10 @@ func runC13(c *run.Ctx) {
 			g := &ref.Gen{R: r, FT: funTable(user), Opt: opt, Loc: time.Local}
 			contents := c13Contents(g)
 			g.EnvT, g.Vars = contents[0].env.T, contents[0].env.Names
-			ft := funTable(user)
-			eng := newC13Engine("vm", r.Intn(2) == 0, user)
+			useClosure := r.Intn(2) == 0
+			ft := funTable(c13Order(user, useClosure))
+			g.FT = ft
+			eng := newC13Engine("vm", useClosure, user)
 			var want []string
 			var log []string
 			out, err := captureStdout(fmt.Sprintf("%s/work/C13/stdout2.%d.%d", run.Root, c.Batch, h), func() {
